@@ -16,6 +16,7 @@
      bookkeeping, 5 done, 6 parked after its bookkeeping section (the model has already run the section); channel status 0 nil, 1 open, 2 closed (every waitReturn handed out, in order);
      delta = exit-callback invocations during this event; wcode 1 at gate, 2 blocked, 3+o returned o. *)
 From Util Require Import Common.Base Common.ListLemmas Routine.Model.
+From Util Require Backoff.Model.
 Open Scope N_scope.
 
 Definition n2n := N.to_nat.
@@ -397,5 +398,32 @@ Definition mon (m : option mst) (e o : list N) : option mst * list (nat * nat) :
     end
   end.
 
-Definition run_check_routine (cfg : list N) (evs obss : list (list N)) : list issue :=
+Definition run_check_routine0 (cfg : list N) (evs obss : list (list N)) : list issue :=
   run_check step_opt mon (hinit cfg) (minit cfg) evs obss.
+
+(* hasbo = 2: the container is built with routine.WithRetry(conf), conf being the backoff package's CONSTANT kind with
+   interval d ms (0 = unset: the package default).  The script is then not given by the harness but computed by the
+   model of the backoff package (Backoff.Model: Construct, bo_script): 64 intervals, more than a history can use. *)
+Definition real_script_len : nat := 64.
+Definition expand (cfg : list N) : list N :=
+  match cfg with
+  | variant :: cmp :: ncbs :: 2 :: exitg :: d :: _ =>
+    match Backoff.Model.Construct {| Backoff.Model.c_kind := 2; Backoff.Model.c_init := 0; Backoff.Model.c_mult := 0;
+                                     Backoff.Model.c_max := 0; Backoff.Model.c_rf := 0; Backoff.Model.c_maxel := 0;
+                                     Backoff.Model.c_const := d |} with
+    | Some p => variant :: cmp :: ncbs :: 1 :: exitg :: Backoff.Model.bo_script p real_script_len
+    | None => cfg
+    end
+  | variant :: cmp :: ncbs :: 3 :: exitg :: _ =>
+    (* hasbo = 3: routine.WithRetry(&backoff.Backoff{}) - the EMPTY configuration: the package's default exponential back-off *)
+    match Backoff.Model.Construct {| Backoff.Model.c_kind := 0; Backoff.Model.c_init := 0; Backoff.Model.c_mult := 0;
+                                     Backoff.Model.c_max := 0; Backoff.Model.c_rf := 0; Backoff.Model.c_maxel := 0;
+                                     Backoff.Model.c_const := 0 |} with
+    | Some p => variant :: cmp :: ncbs :: 1 :: exitg :: Backoff.Model.bo_script p real_script_len
+    | None => cfg
+    end
+  | _ => cfg
+  end.
+
+Definition run_check_routine (cfg : list N) (evs obss : list (list N)) : list issue :=
+  run_check_routine0 (expand cfg) evs obss.
